@@ -9,6 +9,7 @@ from fractions import Fraction
 
 from harness import common as C
 from harness import fw
+from harness import c02_fngen as FG
 from harness import pyast_wire as W
 
 META = {
@@ -951,6 +952,8 @@ WITNESSES = {
     "F-C02-abs-min-max-float-typed-int": {"body": "x = abs(-2.5)\nmon.write(x)\ny = max(1, 2.5)\nmon.write(y)\n", "loops": 0},
     "F-C02-int-division-typed-int": {"body": "n = 7\nh = n / 2\nmon.write(h)\n", "loops": 0},
     "F-C02-boolop-typed-bool": {"body": "n = 0\nv = n or 5\nmon.write(v)\n", "loops": 0},
+    "F-C02-stale-promotion-type": {"body": "mode = 2\nif mode > 1:\n    gain = 1.5\nelse:\n    gain = 0.5\ndef f(p):\n    if p > 1:\n        out = 1\n    else:\n        out = 2\n    return out\ndef g(p):\n    k = 0\n    while k < 2:\n        out = p * 0.5\n        k = k + 1\n    return out\na = f(3)\nb = g(3)\nmon.write(a)\nmon.write(b)\n", "loops": 0},
+    "F-C02-param-declared-from-last-label": {"body": "def f(p):\n    q = p * 2\n    p = 1\n    return q\nx = 2.5\na = f(x)\nmon.write(a)\n", "loops": 0},
 }
 
 
@@ -1001,16 +1004,63 @@ def part_c(ctx, stats):
     return n + values, [srcs[0][len(HEADER):]]
 
 
+# --------------------------------------------------------------------------- part (d): generated helper functions
+def part_d(ctx, stats):
+    """firmware values vs CPython values for programs whose helper functions are GENERATED (harness/c02_fngen.py):
+    differently typed returns on value-dependent paths, branch-/loop-first locals, several call signatures in every
+    order, shared local names, top-level hoists before the defs, helpers calling helpers, str helpers"""
+    rng = ctx.rng
+    n = 700 if ctx.tier == "thorough" else 40
+    FG.validate_fixed()
+    g = FG.FnGen(rng)
+    progs = list(FG.fixed_programs())
+    nfixed = len(progs)
+    for _ in range(n):
+        progs.append(g.program())
+    srcs = [FG.render(HEADER, items) for items, _ in progs]
+    loops = [(rng.choice([1, 2]) if lp else 0) for _, lp in progs]
+    inputs = ["" for _ in progs]
+    res = run_value_pairs(srcs, inputs, loops)
+    st, values, nontrivial, undefined = {}, 0, set(), {}
+    for k, (src, l, r) in enumerate(zip(srcs, loops, res)):
+        st[r["status"]] = st.get(r["status"], 0) + 1
+        case = {"script": src, "input": "", "loops": l}
+        if r["status"] == "DIFF":
+            ctx.fail("a value on the device differs from the value CPython holds (generated helper functions, program inside the guard)",
+                     case, r["py"], {"first_difference": r["diff"], "firmware": r["fw"], "cpp": r["cpp"]}, key="value-diff-fn")
+        elif r["status"] == "nocompile":
+            ctx.fail("accepted script inside the guard does not compile (generated helper functions)", case, "compilable C++", r["log"], key="nocompile-fn")
+        elif r["status"] == "fw-crash":
+            ctx.fail("firmware crashed", case, "rc 0", r, key="fw-crash-fn")
+        elif r["status"] == "rejected":
+            ctx.fail(f"transpiler rejected a program inside the guard ({r['exc']})", case, "accepted", r, key="rejected-fn")
+        elif r["status"] == "py-undefined":
+            undefined[r["exc"]] = undefined.get(r["exc"], 0) + 1
+            if k < nfixed:
+                ctx.disagree("harness self-check: a fixed oracle program of part (d) is not a valid CPython program", src, "runs", r)
+        elif r["status"] == "equal":
+            values += r["n_values"]
+            if r["n_values"] >= 4:
+                nontrivial.add(src)
+    d = dict(g.stats)
+    d.update({"programs": len(progs), "fixed_class_representatives": nfixed, "by_status": st, "values_compared": values,
+              "cpython_raises": undefined, "programs_with_main_loop": sum(1 for l in loops if l)})
+    stats["function_programs"] = d
+    stats["function_distinct_nontrivial"] = len(nontrivial)
+    return len(progs) + values, [srcs[nfixed][len(HEADER):]]
+
+
 def run(ctx: C.Ctx):
     stats = {}
     n = part_a(ctx, stats)
     nb, samples_b = part_b(ctx, stats)
     nc, samples_c = part_c(ctx, stats)
+    nd, samples_d = part_d(ctx, stats)
     ctx.coverage.update({
-        "evaluations": n + nb + nc,
-        "distinct_nontrivial": stats.get("infer_distinct_nontrivial", 0) + stats.get("decl_distinct_nontrivial", 0) + stats.get("value_distinct_nontrivial", 0),
+        "evaluations": n + nb + nc + nd,
+        "distinct_nontrivial": stats.get("infer_distinct_nontrivial", 0) + stats.get("decl_distinct_nontrivial", 0) + stats.get("value_distinct_nontrivial", 0) + stats.get("function_distinct_nontrivial", 0),
         "distribution": stats,
-        "samples": samples_b[:1] + samples_c,
+        "samples": samples_b[:1] + samples_c + samples_d,
         "rule": ("(a) _infer_expr_type: ~115 fixed boundary expressions (every clause of the model, with/without ctx, with generated var_types / "
                  "functions / aliases / device-name sets) + seeded random typed expressions (depth 1-4, all node kinds incl. calls to user functions, "
                  "methods, lists, subscripts, f-strings, unsupported nodes) + the shared Lang generator; compared: label, ValueError, and the MUTATED "
